@@ -8,8 +8,8 @@ def run(tier, seed, verdict):
     quick = tier != "thorough"
     probes = ("reopen", "lookups", "xcopy")
     runs = [mr.ModelRun("MC_C20_quick.cfg" if quick else "MC_C20.cfg", seed, probes=probes, name_pools=[0, 1, 2],
-                        stride=1 if quick else 3),
-            mr.ModelRun("MC_C20_mut.cfg", seed + 1, probes=probes, name_pools=[0, 2], stride=3 if quick else 1)]
+                        stride=2 if quick else 3),
+            mr.ModelRun("MC_C20_mut.cfg", seed + 1, probes=probes, name_pools=[0, 2], stride=6 if quick else 1)]
     if not quick:
         runs.append(mr.ModelRun("MC_C20_keep.cfg", seed + 2, probes=("reopen", "xcopy"), name_pools=[0, 1], stride=1))
     return run_property(
